@@ -31,6 +31,12 @@ class Tracer:
         # current iteration is inside a window
         self.record = record
         self.recorded = []
+        # compact full-run recording: site table + per-event site ids + marks
+        self.site_ids = {}
+        self.sites = []
+        self.ev_sites = []
+        self.marks = []
+        self._last_mark = None
         self.state = state  # object exposing .iteration / .phase (set by incarnation)
         self._files = {}
         self.delivered = []
@@ -75,7 +81,21 @@ class Tracer:
             return self._local
         self.count += 1
         c = self.count
-        if self.record is not None:
+        if self.record is not None and self.record.get("compact"):
+            code = frame.f_code
+            key = (code.co_filename, frame.f_lineno)
+            sid = self.site_ids.get(key)
+            if sid is None:
+                sid = len(self.sites)
+                self.site_ids[key] = sid
+                self.sites.append(self.site(frame))
+            self.ev_sites.append(sid)
+            st = self.state
+            mk = (st.iteration(), st.phase()) if st is not None else (-1, "")
+            if mk != self._last_mark:
+                self._last_mark = mk
+                self.marks.append([c, mk[0], mk[1]])
+        elif self.record is not None:
             st = self.state
             it = st.iteration() if st is not None else -1
             for lo, hi in self.record["windows"]:
@@ -113,6 +133,13 @@ class Tracer:
                          stack=self.stack(frame))
             os._exit(BUDGET_EXIT)
         return self._local
+
+    def dump_compact(self, path):
+        import json
+
+        with open(path, "w") as f:
+            json.dump({"sites": self.sites, "ev_sites": self.ev_sites, "marks": self.marks,
+                       "first_event": 1}, f)
 
     def stack(self, frame, limit=12):
         out = []
